@@ -433,6 +433,18 @@ ADD_TEXT["C12"] += (" Round 8: 'leaves a message whose serialised form is well-f
                     "on the offset only modulo 8 (encode_length_mod8, wfVal_mod8), a header field is a self-aligning struct and so well-formed wherever it stands (wfVal_fieldArray_iff), "
                     "the loader's per-field loop is a property of each field plus distinct known codes (checkFields_iff), and removing fields never lengthens the field array "
                     "(fieldsLen_sublist) - so delete and strip-unknown need no size hypothesis.")
+ADD_TEXT["C19"] = ADD_TEXT.get("C19", "") + (" Round 8: a bus configured with a <servicehelper> is in the model as far as the daemon's own decision goes (SvcFile.refuse: a service file "
+                    "without User= is refused with Spawn.FileInvalid before anything is parsed or started, and nothing stays pending); generated activation histories run on such a bus "
+                    "(profile servicehelper-without-user).")
+ADD_TEXT["C13"] = ADD_TEXT.get("C13", "") + (" Round 8: max_incomplete_connections over histories (clients arriving, saying Hello, leaving around limits 1, 2, 3; three scripted: a slot "
+                    "freed by a Hello or by a departure is usable again) against Model/Bus/Accept.lean in this check too; such histories replay for real.")
+ADD_TEXT["C03"] = ADD_TEXT.get("C03", "") + (" Round 8: profile unique-names-requested (connections ask for and release each other's live unique names, holders leave, others query) with "
+                    "an oracle clause of its own: a unique name is never granted, promised, acquired or lost.")
+ADD_TEXT["C18"] = ADD_TEXT.get("C18", "") + (" Round 8: scripted profile queued-then-monitor (a waiter in a name's queue becomes a monitor, then the owner gives the name up; 16 variants) "
+                    "and the oracle clause 'a monitor is never told NameAcquired nor announced as an owner'.")
+ADD_TEXT["C11"] = ADD_TEXT.get("C11", "") + (" Round 8: the transport suite also cuts inside the BEGIN line itself, at each of its six positions, with a pause.")
+ADD_TEXT["C01"] = ADD_TEXT.get("C01", "") + (" Round 8: grammar-corner signatures (dict entries with every kind of key, outside arrays, wrong arity, misnested) as SIGNATURE field, as g "
+                    "value and as the type of a variant among the specials.")
 for _k, _v in ADD_TEXT.items():
     CHECKS[_k]["text"] = CHECKS[_k]["text"].rstrip() + _v
 for _k, _v in NEW_NOTE.items():
